@@ -12,8 +12,10 @@ open NetVerif.Model.H2Client
 
 /-! ## Part 1: mechanism -/
 
-/-- `awaitOpenSlotForStreamLocked` lets a request through only below the limit. -/
-theorem await_go_below_limit (c : CC) (h : c.await = .go) : c.count < c.maxConc := by
+/-- `awaitOpenSlotForStreamLocked` lets a request through only when the streams it tracks plus
+the unconfirmed resets are below the limit. -/
+theorem await_go_below_limit (c : CC) (h : c.await = .go) :
+    c.streams.length + c.pendingResets < c.maxConc := by
   unfold CC.await at h
   split at h
   · cases h
@@ -143,23 +145,25 @@ theorem ids_odd_increasing (strict : Bool) (acts : List Act) (c' : CC) (log : Li
   exact ⟨hp, fun id hid => (hall id hid).2⟩
 
 /-- C17, strict clause on the mechanism: whenever a stream is opened, the streams the client
-tracks (which include every stream open on the wire), the reservations and the unconfirmed
-resets stay within the limit afterwards; in particular open streams ≤ limit. -/
+tracks (which include every stream open on the wire) plus the unconfirmed resets stay within
+the limit afterwards; in particular open streams ≤ limit. -/
 theorem open_within_limit (c c' : CC) (h : step c .openStream = some c') :
-    c.count < c.maxConc ∧ c'.count ≤ c'.maxConc ∧ c'.streams.length ≤ c'.maxConc := by
+    c.streams.length + c.pendingResets < c.maxConc ∧
+    c'.streams.length + c'.pendingResets ≤ c'.maxConc ∧ c'.streams.length ≤ c'.maxConc := by
   simp only [step] at h
   split at h
   · rename_i hgo
     have hlt := await_go_below_limit c hgo
     simp only [Option.some.injEq] at h
     subst h
-    simp only [CC.count, CC.addStream, List.length_cons] at hlt ⊢
+    simp only [CC.addStream, List.length_cons] at hlt ⊢
     omega
   · cases h
 
 /-- Limit lowered below (or to) the current count: no new stream can be opened until the count
 has dropped below the limit — in every state, hence along every history. -/
-theorem at_limit_blocks (c : CC) (h : c.maxConc ≤ c.count) : step c .openStream = none := by
+theorem at_limit_blocks (c : CC) (h : c.maxConc ≤ c.streams.length + c.pendingResets) :
+    step c .openStream = none := by
   simp only [step]
   split
   · rename_i hgo
@@ -167,10 +171,24 @@ theorem at_limit_blocks (c : CC) (h : c.maxConc ≤ c.count) : step c .openStrea
     omega
   · rfl
 
-theorem lowered_limit_blocks (c : CC) (m : Nat) (h : m ≤ c.count) :
+theorem lowered_limit_blocks (c : CC) (m : Nat) (h : m ≤ c.streams.length + c.pendingResets) :
     step (c.settings (some m)) .openStream = none := by
   apply at_limit_blocks
-  simpa [CC.settings, CC.count] using h
+  simpa [CC.settings] using h
+
+/-- Progress (the repaired stall): on an open, usable connection a waiting request is let through
+as soon as streams + pending resets are below the limit, however many requests are queued
+behind it with reservations. -/
+theorem waiter_let_through (c : CC) (hc : c.closed = false) (hi : c.idleCanTake = true)
+    (h : c.streams.length + c.pendingResets < c.maxConc) : c.await = .go := by
+  unfold CC.await
+  simp [hc, hi, h]
+
+/-- ... so the step is enabled whatever the number of reservations. -/
+theorem waiter_progress (c : CC) (hc : c.closed = false) (hi : c.idleCanTake = true)
+    (h : c.streams.length + c.pendingResets < c.maxConc) :
+    step c .openStream = some c.addStream := by
+  simp [step, waiter_let_through c hc hi h]
 
 /-- C17, non-strict clause on the mechanism: `ReserveNewRequest` (what the pool calls) refuses a
 connection at its limit. The only exception in the code is a closed connection that was never
@@ -209,14 +227,12 @@ theorem strict_reserve_ignores_limit (c : CC) (hs : c.strict = true) (hu : c.isU
   unfold CC.reserve CC.idleCanTake
   simp [hs, hu, hsu]
 
-/-- Observation (liveness, outside the statement of C17): in strict mode the reservations of the
-requests queued behind the head waiter count against the limit, so with limit 1, one finished
-stream and two queued requests the head waiter is never let through although no stream is open.
-Reproduced on the real Transport (see the report). -/
-theorem strict_queue_stall :
+/-- The history that stalled before the repair (limit 1, one finished stream, two queued
+requests; corpus/C17/strict_stall.ops): the head waiter is now let through. -/
+example :
     ∃ c log, run { strict := true }
         [.settings (some 1), .reserve, .enter, .openStream, .reserve, .enter, .reserve, .forget 1]
-        = some (c, log) ∧ c.streams = [] ∧ c.closed = false ∧ c.await = .wait := by
+        = some (c, log) ∧ c.streams = [] ∧ c.reserved = 1 ∧ c.await = .go := by
   refine ⟨_, _, rfl, ?_, ?_, ?_⟩ <;> decide
 
 /-! Non-vacuity -/
@@ -238,10 +254,11 @@ theorem gen_count_eq (c : CC) :
 /-- On an open, usable connection `awaitOpenSlotForStreamLocked` proceeds exactly when the
 comparison written in Go holds. -/
 theorem gen_slotFree_eq (c : CC) (hc : c.closed = false) (hi : c.idleCanTake = true) :
-    c.await = .go ↔ NetVerif.Gen.C17.slotFree c.count c.maxConc = true := by
+    c.await = .go ↔
+      NetVerif.Gen.C17.slotFree c.streams.length c.reserved c.pendingResets c.maxConc = true := by
   unfold CC.await NetVerif.Gen.C17.slotFree
   simp only [hc, hi, Bool.false_and, Bool.not_true, Bool.or_self, decide_eq_true_eq]
-  by_cases h : c.count < c.maxConc
+  by_cases h : c.streams.length + c.pendingResets < c.maxConc
   · simp [h]
   · simp [h]
 
@@ -249,8 +266,9 @@ theorem gen_slotFree_eq (c : CC) (hc : c.closed = false) (hi : c.idleCanTake = t
 `isUsableLocked`. -/
 theorem gen_poolOkay_eq (c : CC) (hs : c.strict = false) (hsu : c.singleUse = false)
     (hc : c.closed = false) :
-    c.idleCanTake = (NetVerif.Gen.C17.poolOkay c.count c.maxConc && c.isUsable) := by
-  unfold CC.idleCanTake NetVerif.Gen.C17.poolOkay
+    c.idleCanTake =
+      (NetVerif.Gen.C17.poolOkay c.streams.length c.reserved c.pendingResets c.maxConc && c.isUsable) := by
+  unfold CC.idleCanTake NetVerif.Gen.C17.poolOkay NetVerif.Gen.C17.count CC.count
   simp [hs, hsu, hc]
 
 /-! ## Part 2: the trace monitor -/
